@@ -4,18 +4,37 @@ CFG = {
  'go': {'bmtree.PathToIndexLoose': 'bmtree.PathToIndexLoose (release build)',
         'bmtree.PathToIndexLoose/debug': 'bmtree.PathToIndexLoose (-tags debug build, contracts active)',
         'bmtree.PathToIndex': 'bmtree.PathToIndex (release build)',
-        'bmtree.PathToIndex/debug': 'bmtree.PathToIndex (-tags debug build, contracts active)'},
+        'bmtree.PathToIndex/debug': 'bmtree.PathToIndex (-tags debug build, contracts active)',
+        'bmtree.PathToIndexLoose/debug-raw': 'bmtree.PathToIndexLoose on RAW (int32, uint64) arguments, -tags debug build only',
+        'bmtree.PathToIndexLoose/child': 'bmtree.PathToIndexLoose on a node and on one of its children (release build)',
+        'bmtree.PathToIndexLoose/child/debug': 'bmtree.PathToIndexLoose on a node and on one of its children (-tags debug build)',
+        'bmtree.PathOf+PathToIndexLoose': 'bmtree.PathToIndexLoose(T, bmtree.PathOf(s, from, Height(T))) (release build)',
+        'bmtree.PathOf+PathToIndexLoose/debug': 'the same, -tags debug build',
+        'bmtree.PathOf+PathToIndex': 'bmtree.PathToIndex(T, bmtree.PathOf(s, from, Height(T))) (release build)',
+        'bmtree.PathOf+PathToIndex/debug': 'the same, -tags debug build',
+        'bmtree.PathToIndex/debug-raw': 'bmtree.PathToIndex on RAW (int32, uint64) arguments, -tags debug build only'},
  # two harness builds; every case runs on both. In the debug build github.com/openacid/must is active,
  # a contract panic is observed as P and rejected by the specification.
  'runs': [{'tags': 'verif'}, {'tags': 'verif debug'}],
  'rule': 'a case is (T, node as bit list), height = top bit of T, BOTH sides build the path word; '
-         'cases = every T in [1,2^7) x every node; heights 0..30 x 8 structured masks x every length x 6 extreme paths; '
+         'cases = (first in the run, against hidden state) one node under runs of sibling / unrelated masks of its height and one mask with runs of sibling nodes; every T in [1,2^7) x every node; heights 0..30 x 8 structured masks x every length x 6 extreme paths; '
          'random heights 7..30 (30 forced in 1/8) with full / leaf-only / sparse / dense / full-minus-one-level / '
          'leaf-plus-one-level / random masks x nodes of every length (left-most, right-most, alternating, single-bit, random); '
          'PathToIndexLoose on every node, PathToIndex only on nodes of a stored level; each case in the release and the debug build; '
+         'WIDENING (debug build only, ops */debug-raw): raw arguments — every level mask in [-2,16] x every word with 4-bit halves; '
+         'a valid (T,node) pair with ONE mutation (mask bit flipped, search bit flipped, top-two bits set, mask half cleared, word of a shorter / taller tree, '
+         'search bit below the mask / above the height, hole in the mask, node level removed from T, T = 0 / negative / shifted / extreme, random word); '
+         'the contracts must fire exactly outside the domain (decode_word of Spec/ContractSpec.v), inside it the value is the rank; '
+         'on the contract gap (empty mask half under non-zero search bits) only model = implementation is compared; '
+         'WIDENING (ops */child): a node and one child in one case — every T in [2,2^6) x every inner node x both children, random heights 1..30; '
+         'the child pair must follow from the parent pair by the child rule (left child: next index; right child: after T>>(|q|+1) nodes); '
+         'WIDENING (ops bmtree.PathOf+PathToIndex*): from a key to its index — every T in [1,16) x every string of <= 2 bytes over {00,80,ff,a5} x every from; '
+         'random heights 0..30, keys of 0..7 bytes over {00,01,7f,80,ff,a,b,a5}, from byte-aligned / unaligned / window ending at the end of the key; '
+         'expected = rank of the node spelled by the key bits from..from+h (cut at the end of the key); '
          'non-trivial = not the root and at least one stored node precedes it; distinct = distinct (op,args,build)',
  'assumptions': ['1 <= bitmapSize < 2^31 (int32, height <= 30)', '|q| <= Height(bitmapSize)',
-                 'PathToIndex is only claimed (and only called) for nodes on a stored level'],
+                 'PathToIndex is only claimed (and only called) for nodes on a stored level',
+                 'raw ops: any int32 level mask, any uint64 word, debug build only (the release build is not claimed outside the domain)'],
  'trusted': ['checker: enumerated pre-order (pre_rank) for h <= 12, the recursive rank (rec_rank) above; '
              'rec_rank = pre_rank is a theorem (Proofs/BmtreeIndexProofs.v)'],
  'explanation': 'Theorems over the model (PathToIndex / PathToIndexLoose with their int32/uint64 wraps, shiftMulti with both operand orders, '
